@@ -301,6 +301,8 @@ type linCtx struct {
 	atomFacts map[string][]cons
 	depth     int
 	vi        map[string]ssa.Value
+	lenRep    map[ssa.Value]ssa.Value // paired slices: value -> representative (same length)
+	mergeMemo map[*ssa.Phi][]cons
 }
 
 func newLinCtx(c *Ctx, fn *ssa.Function) *linCtx {
@@ -547,6 +549,12 @@ func (lc *linCtx) rowOwner(v ssa.Value) (string, bool) {
 func (lc *linCtx) lenOf(v ssa.Value) lin {
 	v0 := v
 	v = stripConvKeepIface(v)
+	// slices that grow in lock-step have one length (see pairedSlices)
+	if _, isPhi := v.(*ssa.Phi); isPhi {
+		if rep := lc.lenRepOf(v); rep != nil && rep != v {
+			return lc.lenOf(rep)
+		}
+	}
 	switch x := v.(type) {
 	case *ssa.MakeSlice:
 		return lc.of(x.Len)
@@ -773,6 +781,20 @@ func (lc *linCtx) of1(v ssa.Value) lin {
 			return lc.lenOf(cc.Args[0])
 		case "cap":
 			return linAtom("cap(" + lc.canon(cc.Args[0]) + ")")
+		case "min", "max":
+			if isIntType(x.Type()) && len(cc.Args) >= 1 {
+				atom := v.Name() + "@" + shortFn(v)
+				var fs []cons
+				for _, a := range cc.Args {
+					if builtinName(cc) == "min" {
+						fs = append(fs, consLE(linAtom(atom), lc.of(a), "min(…) <= each argument"))
+					} else {
+						fs = append(fs, consLE(lc.of(a), linAtom(atom), "max(…) >= each argument"))
+					}
+				}
+				lc.atomFacts[atom] = fs
+				return linAtom(atom)
+			}
 		}
 		if m := getterName(cc); m != "" {
 			recv := lc.recvOf(cc)
@@ -935,6 +957,25 @@ func (lc *linCtx) condCons(cond ssa.Value, taken bool) []cons {
 			return []cons{consLE(b, a, why)}
 		case token.EQL:
 			return []cons{consLE(a, b, why), consLE(b, a, why)}
+		case token.NEQ:
+			// x != 0 for a length (never negative) means x >= 1
+			nonnegLen := func(l lin) bool {
+				if l.c != 0 || len(l.t) != 1 {
+					return false
+				}
+				for at, k := range l.t {
+					if k != 1 || !(strings.HasPrefix(at, "len(") || strings.HasPrefix(at, "L(") || strings.HasPrefix(at, "N(")) {
+						return false
+					}
+				}
+				return true
+			}
+			if b.isConst() && b.c == 0 && nonnegLen(a) {
+				return []cons{consLE(linConst(1), a, why)}
+			}
+			if a.isConst() && a.c == 0 && nonnegLen(b) {
+				return []cons{consLE(linConst(1), b, why)}
+			}
 		}
 	}
 	return nil
@@ -1185,6 +1226,7 @@ func (lc *linCtx) factsFor(forms []lin, byName map[string]ssa.Value) []cons {
 		if v, ok := byName[a]; ok {
 			if p, ok := v.(*ssa.Phi); ok {
 				add = append(add, lc.inductionFacts(p)...)
+				add = append(add, lc.mergeBoundFacts(p)...)
 			}
 		}
 		if strings.HasPrefix(a, "len(") || strings.HasPrefix(a, "N(") {
@@ -1214,6 +1256,66 @@ func (lc *linCtx) factsFor(forms []lin, byName map[string]ssa.Value) []cons {
 			}
 		}
 	}
+	return out
+}
+
+// mergeBoundFacts: for a φ that merges alternatives at a join (not a loop header), every edge value
+// B such that each incoming edge proves "its value <= B" (from the hypotheses of its predecessor and
+// the condition of the edge) is an upper bound of the φ; symmetrically for lower bounds. This is
+// how `end := x; if end > L { end = L }` (or min/max written with if) yields end <= x and end <= L.
+func (lc *linCtx) mergeBoundFacts(p *ssa.Phi) []cons {
+	if lc.mergeMemo == nil {
+		lc.mergeMemo = map[*ssa.Phi][]cons{}
+	}
+	if fs, ok := lc.mergeMemo[p]; ok {
+		return fs
+	}
+	lc.mergeMemo[p] = nil // recursion guard
+	b := p.Block()
+	if !isIntType(p.Type()) || len(p.Edges) < 2 || len(p.Edges) > 4 {
+		return nil
+	}
+	for _, pr := range b.Preds {
+		if b.Dominates(pr) {
+			return nil // loop header
+		}
+	}
+	self := linAtom(p.Name() + "@" + shortFn(p))
+	vals := make([]lin, len(p.Edges))
+	hyps := make([][]cons, len(p.Edges))
+	for k, e := range p.Edges {
+		vals[k] = lc.of(e)
+		pr := b.Preds[k]
+		H := append([]cons{}, lc.hypAtBlock(pr)...)
+		if len(pr.Instrs) > 0 {
+			if ifi, ok := pr.Instrs[len(pr.Instrs)-1].(*ssa.If); ok && pr.Succs[0] != pr.Succs[1] {
+				H = append(H, lc.condCons(ifi.Cond, pr.Succs[0] == b)...)
+			}
+		}
+		hyps[k] = H
+	}
+	var out []cons
+	for _, B := range vals {
+		if _, mentionsSelf := B.t[p.Name()+"@"+shortFn(p)]; mentionsSelf {
+			continue
+		}
+		up, down := true, true
+		for k := range vals {
+			if !entails(hyps[k], consLE(vals[k], B, "")) {
+				up = false
+			}
+			if !entails(hyps[k], consLE(B, vals[k], "")) {
+				down = false
+			}
+		}
+		if up {
+			out = append(out, consLE(self, B, "merge of alternatives each <= "+B.String()))
+		}
+		if down {
+			out = append(out, consLE(B, self, "merge of alternatives each >= "+B.String()))
+		}
+	}
+	lc.mergeMemo[p] = out
 	return out
 }
 
